@@ -15,8 +15,10 @@ REPO = os.environ.get("VERIF_REPO", "/repo")
 LEAN = os.path.join(VERIF, "lean")
 HARNESS = os.path.join(VERIF, "harness")
 DRIVER = os.path.join(LEAN, ".lake", "build", "bin", "driver")
-EVIDENCE = os.path.join(VERIF, "evidence")
-REPLAYS = os.path.join(VERIF, "replays")
+# evidence and replays of runs against a scratch worktree (VERIF_REPO) never overwrite the real ones
+_ALT = REPO != "/repo"
+EVIDENCE = os.path.join(VERIF, "evidence") if not _ALT else os.path.join(tempfile.gettempdir(), "verif-alt-evidence")
+REPLAYS = os.path.join(VERIF, "replays") if not _ALT else os.path.join(tempfile.gettempdir(), "verif-alt-replays")
 KNOWN = os.path.join(VERIF, "known_findings.txt")
 ALLOWED_AXIOMS = {"propext", "Classical.choice", "Quot.sound"}
 BANNED = re.compile(r"\b(sorry|admit|native_decide|bv_decide|implemented_by)\b|^\s*axiom\s|\bunsafe\s|maxHeartbeats\s+0")
